@@ -115,7 +115,8 @@ def post(ctx, results):
               if o['status'] == 'failed']
     undecided = [o for r in results for o in r['obligations']
                  if o['status'] == 'unknown']
-    if not failed and not undecided:
+    if not failed and not undecided and not getattr(ctx, 'always_replay',
+                                                    True):
         return results
     texts = ["'\\xZZ'", '1' * 4301, "'\\N{nope}'"]
     # boundary values of every escape form (largest / out-of-range code
@@ -140,6 +141,18 @@ def post(ctx, results):
     for o in failed:
         if rep.get('status') == 'failed' and not o.get('replay'):
             o['replay'] = rep
+    if rep.get('status') == 'ok':
+        results.append(dict(unit='replay:c03-corpus', seconds=0.0,
+                            obligations=[_core.ob(
+                                'bounded:c03-replay-corpus', 'proved',
+                                'bounded', 'cpython', 0.0, bounded=True,
+                                text='BOUNDED: the replay corpus (escape '
+                                     'boundary values, non-normalised text, '
+                                     'deeply nested expressions, regex '
+                                     'witnesses) parses to a statement or a '
+                                     'YAQL parsing error positioned inside '
+                                     'the text (%s texts)' % rep.get(
+                                         'texts'))]))
     if not failed and rep.get('status') == 'failed':
         # nothing was refuted deductively (the function left the verifier's
         # reach), but the replay corpus has a real failing input: reported
